@@ -9,6 +9,10 @@ R2  spec->code: Planted.tla prints exactly representable instances with their un
     the crossover point (128) of the default Ilaenv.  PlantedX.tla adds LU at the ends of the exponent range
     (sub-safe-minimum pivots), two-sided bounds for the condition estimators, pivoted Cholesky, QL / RQ,
     triangular band solves, Dlauum and the norms incl. Frobenius; its lemmas are in PlantedXLemmas.tla.
+    PlantedC.tla adds LU with complete pivoting (Dgetc2: strictly unique planted pivot sequences, rank deficient
+    and general tie-rich matrices judged by the acceptance predicate Getc2Accept), the solve Dgesc2 (with and
+    without scaling) and the Dif-estimate contribution Dlatdf (LatdfAccept / LatdfNullAccept / SumsqAccept),
+    plus exactly singular tridiagonal systems (Dgtsv ok = false), Dlagtm and Drscl; lemmas in PlantedCLemmas.tla.
 """
 import os
 
@@ -103,8 +107,19 @@ def run(ctx):
                     ctx.replay(bins[bn], "lapack", cases, args + ["nb=%d" % nb, "nx=%d" % nx],
                                name="R2 replay %s nb=%d nx=%d [%s]" % (fam, nb, nx, bn))
 
+    # ---- complete pivoting: Dgetc2 / Dgesc2 / Dlatdf (PlantedC.tla), R1 lemmas and R2 replay ----------
+    csub = dict(FAM="call", SMALL=SMALL[ctx.tier], BIG="{}", NRHS=3, SEED=ctx.seed)
+    ctx.tlc("lapack/PlantedCLemmas.tla", "lapack/PlantedCLemmas.cfg", name="R1 PlantedCLemmas (c2 c2g latdf gts tdm rscl)", subst=csub, workers=4)
+    cases = ctx.gen("lapack/PlantedC.tla", "lapack/PlantedC.cfg", name="R2 gen planted complete pivoting + leftovers (c2 c2g gts tdm rscl)", subst=csub)
+    for bn, _ in builds:
+        ctx.replay(bins[bn], "lapack", cases, args, name="R2 replay complete pivoting + leftovers [%s]" % bn)
+
     ctx.assumptions += [
         "TLC/SANY and the CommunityModules Json module are trusted",
+        "complete pivoting (weaker binding where the result is not unique): Getc2Accept, LatdfAccept, LatdfNullAccept and "
+        "SumsqAccept are stated in PlantedC.tla over exact rationals, checked by TLC on the exact reference factorization and "
+        "on mutations (PlantedCLemmas.tla), and evaluated by the harness's mirror functions (cpiv.go, math/big.Rat) on gonum's "
+        "output; that the mirror is a faithful transcription is trusted",
         "the harness's operand builders (scaled integer -> float64, row-major layout, transposition, canaries), "
         "the sign bookkeeping S read off the computed triangular factor (the documented freedom of QR/LQ) and the "
         "math/big.Rat comparison are trusted",
@@ -118,7 +133,8 @@ def run(ctx):
     return ctx.finish(
         rule="one case = one call of a gonum LAPACK routine (one routine x lda/ldb/ldc/lwork variant, or one "
              "workspace query) on one spec-generated instance, every output compared with the specification's "
-             "values (condition estimators: rcond inside the specification's exact interval); non-trivial = the "
+             "values (condition estimators: rcond inside the specification's exact interval; complete pivoting on "
+             "non-unique inputs: the specification's acceptance predicate); non-trivial = the "
              "instance has min(m,n) >= 2 (Dlarft: k >= 3; band families: also kd >= 1)",
         exhaustive=False)
 
